@@ -177,4 +177,31 @@ PROPS = {
                     "inside C++ only and hostile byte strings are not yet fed to the parser"],
         "assumptions": ["coordinates are dyadic so that shifted coordinates are exact in binary64"],
     },
+    "C10": {
+        "lean_modules": ["StimModel.Props.C10", "StimModel.Props.C03"],
+        "areas": [
+            {"area": "cdem", "n": {"quick": 500, "thorough": 8000}, "extra": ["decompose"], "replayable": True},
+        ],
+        "rule": "the circuits of the cdem area (multi-qubit channels between multi-body stabilizer measurements: errors touching 3..8 detectors and observables) analysed with "
+                "decompose_errors x ignore_decomposition_failures x block_decomposition_from_introducing_remnant_edges x fold_loops x allow_gauge x approximate: the decomposed model is judged by the "
+                "Lean distribution oracle with separators ignored (same distribution as the circuit's noise <=> components XOR to the undecomposed symptoms and frame changes, merged), by the component "
+                "size rule and by the components-present-elsewhere rule; a reported decomposition failure is accepted when the circuit is analysable without decomposition; distinct = distinct circuit texts",
+        "trusted_base": ["as C03"],
+        "partial": ["decomp_checker_sound is stated through errorVec (separators_ignored); the checker itself is an executable Lean function, not yet proved complete"],
+        "assumptions": [],
+    },
+    "C16": {
+        "lean_modules": ["StimModel.Props.C16", "StimModel.Props.C08"],
+        "builds": ["asan"],
+        "areas": [
+            {"area": "demsample", "n": {"quick": 300, "thorough": 6000}, "builds": ["asan"], "replayable": True},
+        ],
+        "rule": "generated models (nested repeats incl. repeat 0, shifts, separators, duplicate and cancelling targets, observables up to L39, probabilities {0, 0.01, 1/4, 1/2, 1}); "
+                "shot counts {1, 63, 64, 65, 255, 256, 257, 1000, 2500} x 3 word widths; per model the first 12, the stripe-boundary and the last 10 shots of sample_write's three files go to the "
+                "Lean oracle (det/obs = XOR of the fired errors of the flattened model); the recorded error file re-encoded in 01/b8/r8/hits/dets and replayed must reproduce det, obs and err files "
+                "byte for byte; det output re-read from a second format; under ASan+UBSan; distinct = distinct model texts",
+        "trusted_base": ["firing rates / independence are C05's statistical tier"],
+        "partial": ["stim sample_dem as a subprocess is not driven; sample_write is called in-process"],
+        "assumptions": [],
+    },
 }
